@@ -1,0 +1,109 @@
+// Copyright 2023 The Go Authors. All rights reserved.
+// Use of this source code is governed by a BSD-style
+// license that can be found in the LICENSE file.
+
+//go:build verif && (!goexperiment.jsonv2 || !go1.25)
+
+package jsonflags
+
+// Contracts for flags.go (bit-vector theory, loop-free).
+//
+// A Flags value denotes a partial map from option bit positions 1..63 to
+// booleans: position i is present iff bit i of Presence is set and then maps
+// to bit i of Values. The representation invariant wfFlags says that absent
+// positions have a zero value bit and that bit 0 is unused.
+
+//@ spec wfFlags
+func wfFlags(fs Flags) bool { return fs.Values&^fs.Presence == 0 && fs.Presence&1 == 0 }
+
+//@ spec present
+func present(fs Flags, i uint) bool { return fs.Presence>>i&1 == 1 }
+
+//@ spec valueAt
+func valueAt(fs Flags, i uint) bool { return fs.Values>>i&1 == 1 }
+
+// joinSpec is the last-wins union of two maps, written per position.
+//
+//@ spec joinSpec
+func joinSpec(a, b Flags) Flags {
+	return Flags{Presence: a.Presence | b.Presence, Values: a.Values&^b.Presence | b.Values}
+}
+
+// boolsFlags is the Flags denoted by a Bools: every identified position present,
+// all with the value of the least-significant bit.
+//
+//@ spec boolsFlags
+func boolsFlags(f Bools) Flags {
+	id := uint64(f) &^ 1
+	return Flags{Presence: id, Values: uint64(f&1) * id}
+}
+
+//@ func (*Flags).Join
+//@ theory bv
+//@ property C19 C20
+//@ requires dst != nil && wfFlags(*dst) && wfFlags(src)
+//@ modifies *dst
+//@ ensures equals-spec: *dst == joinSpec(old(*dst), src)
+//@ ensures wf: wfFlags(*dst)
+
+//@ func (*Flags).Set
+//@ theory bv
+//@ property C19 C20
+//@ requires fs != nil && wfFlags(*fs)
+//@ modifies *fs
+//@ ensures equals-join: *fs == joinSpec(old(*fs), boolsFlags(f))
+//@ ensures wf: wfFlags(*fs)
+
+//@ func (Flags).Get
+//@ theory bv
+//@ property C19 C20
+//@ ensures result == (fs.Values&uint64(f) != 0)
+
+//@ func (Flags).Has
+//@ theory bv
+//@ property C19 C20
+//@ ensures result == (fs.Presence&uint64(f) != 0)
+
+//@ func (*Flags).Clear
+//@ theory bv
+//@ property C19 C20
+//@ requires fs != nil && wfFlags(*fs)
+//@ modifies *fs
+//@ ensures presence: fs.Presence == old(fs.Presence)&^uint64(f)
+//@ ensures values: fs.Values == old(fs.Values)&^uint64(f)
+//@ ensures wf: f&1 == 0 ==> wfFlags(*fs)
+
+// Lemmas: the per-position reading of Join is "last wins"; Join is
+// associative, so joining separately, together, or nested is the same map.
+
+//@ lemma lemmaJoinLastWins
+//@ theory bv
+//@ property C19
+//@ requires 1 <= i && i < 64 && wfFlags(a) && wfFlags(b)
+//@ ensures present(joinSpec(a, b), i) == (present(a, i) || present(b, i))
+//@ ensures valueAt(joinSpec(a, b), i) == ite(present(b, i), valueAt(b, i), valueAt(a, i))
+func lemmaJoinLastWins(a, b Flags, i uint) {}
+
+//@ lemma lemmaJoinAssoc
+//@ theory bv
+//@ property C19
+//@ ensures joinSpec(joinSpec(a, b), c) == joinSpec(a, joinSpec(b, c))
+func lemmaJoinAssoc(a, b, c Flags) {}
+
+//@ lemma lemmaJoinWF
+//@ theory bv
+//@ property C19
+//@ requires wfFlags(a) && wfFlags(b)
+//@ ensures wfFlags(joinSpec(a, b))
+func lemmaJoinWF(a, b Flags) {}
+
+// Appending DefaultOptionsV2-style flags (all v1 defaults present and false)
+// cancels every v1 default whatever came before.
+//
+//@ lemma lemmaV2CancelsV1
+//@ theory bv
+//@ property C19
+//@ requires wfFlags(a)
+//@ ensures joinSpec(a, Flags{Presence: uint64(DefaultV1Flags), Values: 0}).Values&uint64(DefaultV1Flags) == 0
+//@ ensures joinSpec(a, Flags{Presence: uint64(DefaultV1Flags), Values: 0}).Presence&uint64(DefaultV1Flags) == uint64(DefaultV1Flags)
+func lemmaV2CancelsV1(a Flags) {}
